@@ -9,8 +9,10 @@
                            to its declared signature;
      (18c) C18_idle_sound  is_sess_idle() = True only with nothing queued,
                            in flight, or buffered.
-     (18b) queue consistency, unconditionally (in the model a closed endpoint
-           keeps its queues): C18_tx_queue, C18_finished_at_most_once,
+     (18b) queue consistency, unconditionally (a close reports the transfers
+           not yet started as finished and drops them from the send queue in
+           the same step; whatever else is queued stays queued and unreported):
+           C18_tx_queue, C18_finished_at_most_once,
            C18_finished_was_queued, C18_started_before_finished_success,
            C18_rx_queue (+ no duplicates), C18_pop_once.
    (The tie of the idle predicate to the code's conjunction is in
@@ -142,4 +144,14 @@ Example C18_queues_nonvacuous :
   /\ trace (step s2 (OPop 5)) = trace s2 ++ [EExc EX_KEY]
   /\ q_tx_queue (run c18_cfg (firstn 5 c18_ops)) = [1]
   /\ q_tx_queue s2 = [] /\ fin_ids (trace s2) = [1].
+Proof. vm_compute. repeat split. Qed.
+
+(* a close with transfers queued but not started reports each of them finished
+   ('session terminating', length 0) and removes them from the send queue *)
+Example C18_close_reports_queued :
+  let s := run c18_cfg [OStart; OSend [1; 2]; OSend [3]; OClose] in
+  closed s = true /\ q_tx_queue s = [] /\ fin_ids (trace s) = [1; 2]
+  /\ trace s = [ESig SigState [PStr ST_CONTACT]; ERet 1 (PStrNum 1); ERet 1 (PStrNum 2);
+                ESig SigSendFinished [PStrNum 1; PInt 0; PStr RES_TERMINATING];
+                ESig SigSendFinished [PStrNum 2; PInt 0; PStr RES_TERMINATING]; EClosed].
 Proof. vm_compute. repeat split. Qed.
